@@ -149,7 +149,7 @@ def replay_failures(obl, out):
                           "macro %s %s but the documented rule says %s: #[derive_ex(%s)] %s" % (
                               "rejects" if rej else "accepts", case["trait"], "reject" if case["expected_reject"] else "accept", case["attr"], " ".join(case["item"].split())))
         else:
-            out.broken.append("UNCONFIRMED counterexample (encoder and real macro disagree) for %s: %s" % (label, " ".join(case["item"].split())[:200]))
+            e3.not_reproduced(out, model, "(encoder and real macro disagree) for %s: %s" % (label, " ".join(case["item"].split())[:200]))
         if len(seen) >= 8:
             break
 
@@ -292,7 +292,7 @@ def validate_encoder(eng, n, rnd, out):
             s.add(d)
         for c in asg:
             s.add(c)
-        pred = None
+        preds, opaque = set(), False
         for p in paths:
             if p.kind != "return":
                 continue
@@ -300,14 +300,22 @@ def validate_encoder(eng, n, rnd, out):
             for c in p.pc:
                 s.add(c)
             if s.check() == z3.sat:
-                pred = is_err(p)
-                s.pop()
-                break
+                preds.add(is_err(p))
+                names = set()
+                for c in p.pc:
+                    if z3.is_expr(c):
+                        ex._vars_of(c, names)
+                opaque = opaque or any(n.startswith(("disc-opaque", "opaque-", "ret(", "havoc-", "len-opaque")) for n in names)
             s.pop()
-        if pred is None or pred != native_reject:
-            out.broken.append("encoder validation: trait %s config %s: real macro %s, MIR path summary %s" % (t, cfg, "rejects" if native_reject else "accepts", pred))
-        else:
+        if preds == {native_reject}:
             agree += 1
+        elif not preds or len(preds) == 2 or opaque:
+            # no path of the encoding covers the configuration (stuck paths), or the encoding over-approximates a call it does not look into: nothing to validate against
+            msg = "encoder validation skipped for trait %s config %s: the encoding has %s for it" % (t, cfg, "no path" if not preds else "paths with both outcomes / opaque results")
+            if msg not in out.inconclusive:
+                out.inconclusive.append(msg)
+        else:
+            out.broken.append("encoder validation: trait %s config %s: real macro %s, MIR path summary %s" % (t, cfg, "rejects" if native_reject else "accepts", sorted(preds)))
     return agree
 
 
@@ -337,9 +345,9 @@ def run(tier):
                 safe_body(eng, obl, out, t, "struct", 2, keep=[{a}, {b}], label=" %s/%s" % (a, b))
                 if tier == "thorough":
                     safe_body(eng, obl, out, t, "enum", 1, 2, keep=[{a}, {b}], label=" %s/%s" % (a, b))
-        check_verify(eng, obl, out)
-        check_isolation(eng, obl, out)
-        validated = validate_encoder(eng, 120 if tier == "thorough" else 40, rnd, out)
+        e3.safe_part(out, check_verify, eng, obl, out)
+        e3.safe_part(out, check_isolation, eng, obl, out)
+        validated = e3.safe_part(out, validate_encoder, eng, 120 if tier == "thorough" else 40, rnd, out) or 0
         replay_failures(obl, out)
         if tier == "thorough":
             e3.cross_check_solvers(obl, out)
